@@ -1,0 +1,56 @@
+//go:build verif
+
+// Contracts for package xmpp, read by /verif's VC generator (govc).
+// Comment-only file: compiled only under the "verif" build tag and contains no code.
+package xmpp
+
+// ---------------------------------------------------------------------------
+// C19: reconnection back-off
+//
+//@ pred boBase(b)   := ite(b.Base == 0, 20, b.Base)
+//@ pred boFactor(b) := ite(b.Factor == 0, 2, b.Factor)
+//@ pred boCap(b)    := ite(b.Cap == 0, 180000, b.Cap)
+//@ pred boOK(b)     := b != nil && b.Base >= 0 && b.Factor >= 0 && b.Cap >= 0 && b.Cap < 9007199254740992
+//@ pred boDelay(base, factor, cap, n) := toint(min(toreal(cap), toreal(base) * powr(toreal(factor), toreal(n))))
+//
+//@ func (*xmpp.backoff).setDefault(b)
+//@   requires b != nil
+//@   ensures b.Base == old(boBase(b)) && b.Factor == old(boFactor(b)) && b.Cap == old(boCap(b))
+//@   ensures b.NoJitter == old(b.NoJitter) && b.attempt == old(b.attempt) && b.lastDuration == old(b.lastDuration)
+//@   assigns b.Base, b.Factor, b.Cap
+//
+//@ func (*xmpp.backoff).durationForAttempt(b, attempt) (d)
+//@   requires boOK(b) && attempt >= 0
+//@   ensures [C19.bounds]   0 <= d && d <= old(boCap(b)) * 1000000
+//@   ensures [C19.nojitter] old(b.NoJitter) ==> d == old(boDelay(boBase(b), boFactor(b), boCap(b), attempt)) * 1000000
+//@   ensures [C19.jitter]   !old(b.NoJitter) ==> d < old(boDelay(boBase(b), boFactor(b), boCap(b), attempt)) * 1000000
+//@   ensures [C19.stateless] b.attempt == old(b.attempt) && b.NoJitter == old(b.NoJitter)
+//@   ensures b.Base == old(boBase(b)) && b.Factor == old(boFactor(b)) && b.Cap == old(boCap(b))
+//@   assigns b.Base, b.Factor, b.Cap
+//
+//@ func (*xmpp.backoff).duration(b) (d)
+//@   requires boOK(b) && b.attempt >= 0
+//@   ensures [C19.bounds]   0 <= d && d <= old(boCap(b)) * 1000000
+//@   ensures [C19.seq.nojitter] old(b.NoJitter) ==> d == old(boDelay(boBase(b), boFactor(b), boCap(b), b.attempt)) * 1000000
+//@   ensures [C19.seq.jitter]   !old(b.NoJitter) ==> d < old(boDelay(boBase(b), boFactor(b), boCap(b), b.attempt)) * 1000000
+//@   ensures [C19.seq.next] b.attempt == old(b.attempt) + 1
+//@   ensures b.Base == old(boBase(b)) && b.Factor == old(boFactor(b)) && b.Cap == old(boCap(b)) && b.NoJitter == old(b.NoJitter)
+//@   assigns b.Base, b.Factor, b.Cap, b.attempt
+//
+//@ func (*xmpp.backoff).wait(b)
+//@   requires boOK(b) && b.attempt >= 0
+//@   ensures [C19.seq.next] b.attempt == old(b.attempt) + 1
+//@   ensures [C19.wait.slept] count(Sleep) == old(count(Sleep)) + 1 && 0 <= last(Sleep) && last(Sleep) <= old(boCap(b)) * 1000000
+//@   ensures [C19.wait.nojitter] old(b.NoJitter) ==> last(Sleep) == old(boDelay(boBase(b), boFactor(b), boCap(b), b.attempt)) * 1000000
+//@   ensures b.Base == old(boBase(b)) && b.Factor == old(boFactor(b)) && b.Cap == old(boCap(b)) && b.NoJitter == old(b.NoJitter)
+//@   assigns b.Base, b.Factor, b.Cap, b.attempt
+//@   emits Sleep
+//
+//@ func (*xmpp.backoff).reset(b)
+//@   requires b != nil
+//@   ensures [C19.reset] b.attempt == 0
+//@   ensures b.Base == old(b.Base) && b.Factor == old(b.Factor) && b.Cap == old(b.Cap) && b.NoJitter == old(b.NoJitter)
+//@   assigns b.attempt
+//
+//@ lemma [C19.monotone] forall base Int, factor Int, cap Int, n Int, m Int :: base >= 1 && factor >= 1 && cap >= 1 && 0 <= n && n <= m ==> boDelay(base, factor, cap, n) <= boDelay(base, factor, cap, m)
+//@ lemma [C19.capped] forall base Int, factor Int, cap Int, n Int :: base >= 1 && factor >= 1 && cap >= 1 && 0 <= n ==> 1 <= boDelay(base, factor, cap, n) && boDelay(base, factor, cap, n) <= cap
